@@ -34,7 +34,7 @@ RULE = ("one case = one generated frame (2 base columns, nested columns n1 (1-4 
 ASSUMPTIONS = ["the parquet codec is Arrow's: write_table / read_table keep values, nulls at struct and list level and order (contract)",
 ]
 CORRESPONDENCE = "m_regroup (Io.v) vs the column list produced by read_parquet(columns=...)"
-EXTRA_IMPORTS = "Dtype Names Io Io2"
+EXTRA_IMPORTS = "Dtype Names Io Io2 Glue"
 
 
 def cq_s(s):
@@ -287,7 +287,15 @@ def generate(ctx):
                     return True
                 r = attempt(run_f)
                 ok = (r[0] == "ok") if variant != "ragged" else (r[0] == "err")
-                term, impl_repr = f"[true; {cq_bool(ok)}; true; true]", f"{variant}: {r}"
+                # which struct columns the reader makes nested (Glue.m_cast_cols): the file's columns by kind against what happened
+                kind_t = {"wellformed": "KStructLists true", "ragged": "KStructLists false", "nonlist": "KStructOther"}[variant]
+                nested_obs = attempt(lambda: isinstance(read_parquet(path).dtypes[N1], NestedDtype)) if variant != "ragged" else ("ok", False)
+                obs_t = ("Err" if r[0] == "err" else
+                         f"(Ok [({cq_s('x')}, CUnchanged); ({cq_s(N1)}, {'CNested' if nested_obs == ('ok', True) else 'CUnchanged'})])")
+                glue = (f"match m_cast_cols [({cq_s('x')}, KPlain); ({cq_s(N1)}, {kind_t})] [], {obs_t} with "
+                        f"| Ok a, Ok b => list_eqb (fun p q => str_eqb (fst p) (fst q) && match snd p, snd q with CNested, CNested => true "
+                        f"| CUnchanged, CUnchanged => true | _, _ => false end) a b | Err, Err => true | _, _ => false end")
+                term, impl_repr = f"[{glue}; {cq_bool(ok)}; true; true]", f"{variant}: {r}"
                 args["variant"] = variant
             if os.path.exists(path):
                 os.remove(path)
